@@ -144,3 +144,9 @@ PROPS["C16"] = dict(streams=["C16"], kernel_cases=0, timeout=900, race=True,
                   "the Go standard library (strconv, math, sort, encoding/binary) is outside the analysed set", "Go's memory model for read-only sharing; the race detector for the observed schedules"],
     assumptions=["constructors and Parse are excluded (the property starts once they have returned)", "AppendJSON's dst buffer belongs to the caller"],
     partial=["actual goroutine schedules are observed under the race detector, not enumerated; the theorem covers all schedules of the abstract machine"])
+
+PROPS["C05"] = dict(streams=["C05"], kernel_cases=0, timeout=900,
+    rule="object trees of all 12 kinds incl. Circle (steps 0..69, radii 0, 1, 100 km, negative, beyond half circumference), NewPolygon(nil), lines of 0 / 1 points, zero-length segments, back-and-forth and folding collinear lines, rings of one location / two points, a hole equal to its exterior, one-location rectangles, empty and nested collections, nested features, plus valid shapes in contact; all ordered pairs as receiver and argument of 22 method groups (Contains, Within, Intersects, Distance, Rect/Center, JSON/String/MarshalJSON/AppendJSON, NumPoints/Empty/Valid/Members, ForEach, Search/Children/Indexed, the 12 Spatial methods, geometry-level calls with nil / empty arguments); Parse on random bytes, 1-3000-deep nestings of Feature / array / GeometryCollection, single-byte corruptions and structured mutants of grammar documents, then every query method on whatever it returns; a panic is recorded as the case's output, a call that does not return within 20 s aborts the run naming the case, calls slower than 2 s are counted. non-trivial: all; distinct = distinct case lines",
+    trusted_base=COMMON_TB + ["the watchdog and recover() of the harness; wall-clock budgets (20 s per call) are observations, not bounds"],
+    assumptions=["finite coordinates (C05's statement); NaN is exercised by the C17 stream only"],
+    partial=["time, stack depth and panics of the Go code are observed over generated inputs, not proved; the model-side theorems state that the algorithms themselves return (fuel adequacy) and that Parse yields exactly one of object / error"])
